@@ -48,6 +48,7 @@ type World struct {
 	newCallBusy   map[string]bool
 	vanished      []string
 	printsPosMemo map[string]bool
+	shapes        map[string]map[string]bool
 	rangeOfFor    map[*ast.ForStmt]*ast.RangeStmt
 	forOfRange    map[*ast.RangeStmt]*ast.ForStmt
 	astSites      map[string][]astCallSite
